@@ -374,7 +374,8 @@ pub mod model {
                 if S.CUT == usize::MAX {
                     let c: usize = S.CUT_P as usize;
                     kani::assume(c >= S.LAST_END && c <= S.LEN);
-                    kani::assume(c == 0 || S.IS_END[c]);
+                    // (that c is a claim boundary follows at the end: no claim crosses it and everything below it gets claimed -
+                // requiring it NOW would lose the runs in which a later-modelled worker claimed up to c before this skip)
                     let mut i = 0;
                     while i < MAXN {
                         if i >= c && i < S.LEN {
@@ -406,7 +407,8 @@ pub mod model {
             if S.CUT == usize::MAX {
                 let c: usize = S.CUT_P as usize;
                 kani::assume(c >= S.LAST_END && c <= S.LEN);
-                kani::assume(c == 0 || S.IS_END[c]);
+                // (that c is a claim boundary follows at the end: no claim crosses it and everything below it gets claimed -
+                // requiring it NOW would lose the runs in which a later-modelled worker claimed up to c before this skip)
                 let mut i = 0;
                 while i < MAXN {
                     if i >= c && i < S.LEN {
